@@ -145,12 +145,30 @@ def r2_lme(ctx):
     sites = [
         (fit, bf, {key(bf["ages"]): a, canon_name(bf["m"]): m, canon_name(bf["s"]): s} if bf else {}),
         (readers[0], bp, {"P_2": a, "P_1.parameters['ages_mean']": m, "P_1.parameters['ages_std']": s}),
-        (readers[1], bt, {"np.array(P_1).reshape(-1)": a, "P_0.parameters['ages_mean']": m, "P_0.parameters['ages_std']": s}),
+        (readers[1], bt, {"np.array(P_1).reshape(-1)": a, "np.asarray(P_1, dtype=np.float64).reshape(-1)": a, "np.asarray(P_1).reshape(-1)": a, "np.array(P_1, dtype=float).reshape(-1)": a,
+                       "P_0.parameters['ages_mean']": m, "P_0.parameters['ages_std']": s}),
     ]
+    import re as _re2
+
+    def fold_local(lines_, txt):
+        """a local (re-)defined by `x = E`, `x -= A`, `x /= B` ... as one expression (the value it has once all of them ran)"""
+        if not _re2.fullmatch(r"%\d+", txt or ""):
+            return txt
+        expr = None
+        for ln in lines_:
+            m_ = _re2.match(_re2.escape(txt) + r" (=|\+=|-=|\*=|/=) (.*)$", ln, _re2.S)
+            if not m_:
+                continue
+            op, rhs_ = m_.group(1), m_.group(2)
+            expr = rhs_ if op == "=" else (f"(({expr}) {op[0]} ({rhs_}))" if expr is not None else None)
+        return expr or txt
+    site_lines = {id(fit): fl, id(readers[0]): pl, id(readers[1]): tl}
     for f, bnd, env in sites:
         if not bnd:
             ctx.violation("C20.R2", f, f.node, "ages are no longer normalised before the design matrix [1, age] is built", construct=f"age normalisation in {f.name}")
             continue
+        bnd = dict(bnd)
+        bnd["an"] = fold_local(site_lines[id(f)], bnd["an"])
 
         class N(Normalizer):
             def tosym(self, e):
@@ -205,9 +223,22 @@ def r2_lme(ctx):
     ctx.check(ok, "C20.R2", fit, fit.node, "random-effects design = X with a random slope, intercept only otherwise", "the random-effects design of the fit changed", construct="random-effects design")
 
 
+def r3_inputs_untouched(ctx):
+    """The LME / constant estimators are linear-algebra on numpy arrays handed in by the caller (ages, values): a repeated estimate gives the
+    documented line only if those arrays are left as they were."""
+    from ._shared import inplace_on_argument_views
+    ctx.rule("C20.R3", "the benchmark estimators never work in place on a (possible) view of the caller's ages / values", 1)
+    funcs = [f for f in ctx.ix.iter_funcs() if f.mod in ("leaspy.models.lme", "leaspy.models.constant", LP, LF, CA)]
+    sites, holders = inplace_on_argument_views(ctx, funcs)
+    for fn, node, desc in sites:
+        ctx.violation("C20.R3", fn, node, desc + ": the caller's array is overwritten (normalised ages, ...), so the next estimate with the same array is not the documented one")
+    ctx.ok("C20.R3", ("leaspy.models.lme", "LMEModel"), None, f"{len(funcs)} functions of the benchmark models / algorithms scanned", construct="scan")
+
+
 def rules(ctx):
     r1_constant(ctx)
     r2_lme(ctx)
+    r3_inputs_untouched(ctx)
     ctx.trust("numpy nanmax / nanmean / argmax / fancy indexing semantics; statsmodels MixedLM results (fe_params, cov_re_unscaled)")
 
 
